@@ -123,7 +123,7 @@ def body(c):
               "ImplExtraRequiredArg", "ImplFieldType", "UnionMemberNotObject", "EmptyObject", "EmptyInterface", "EmptyInputObject",
               "ReservedTypeName", "ReservedFieldName", "InputCycle"]
     missing = [j for j in judged if j not in single]
-    if missing or n_valid < 100 or stats["built"] < 100 or stats["docs"] < 100:
+    if not c.violations and (missing or n_valid < 100 or stats["built"] < 100 or stats["docs"] < 100):
         raise vlib.ToolError("vacuity: no single-rule violation of %s; valid=%d built=%d docs=%d" % (missing, n_valid, stats["built"], stats["docs"]))
     c.cov["traces_validated_against_impl"] = len(obs)
     c.cov["exhaustive"] = True
